@@ -259,6 +259,8 @@ func main() {
 
 	var wg sync.WaitGroup
 	errs := make([]error, workers)
+	var crashMu sync.Mutex
+	var crashes []string
 	for w := 0; w < workers; w++ {
 		wg.Add(1)
 		go func(w int) {
@@ -282,10 +284,34 @@ func main() {
 				_ = raceBin
 			}
 			wd := time.Duration(tc.BudgetS+tc.MinimiseS*5+120) * time.Second
-			errs[w] = runWorker(bin, env, wd, filepath.Join(outDir, fmt.Sprintf("w%d.log", w)))
+			outPath := filepath.Join(outDir, fmt.Sprintf("w%d.jsonl", w))
+			logPath := filepath.Join(outDir, fmt.Sprintf("w%d.log", w))
+			for attempt := 1; ; attempt++ {
+				errs[w] = runWorker(bin, env, wd, logPath)
+				if errs[w] == nil || attempt > maxCrashReruns {
+					return
+				}
+				// The worker process died.  A fatal error of the Go runtime whose
+				// crashing goroutine is not in relic code says nothing about the
+				// property: the log is kept and the same runs (a function of the
+				// seed and the worker's index) are executed again in a fresh
+				// process.  Anything else - a structured harness error, a
+				// watchdog kill, a panic, a crash with relic frames - is final.
+				headline, rerun := classifyCrash(outPath, logPath, errs[w])
+				if !rerun {
+					return
+				}
+				kept := keepCrashLog(prop, seed, w, attempt, logPath)
+				crashMu.Lock()
+				crashes = append(crashes, fmt.Sprintf("worker %d attempt %d: %s (log kept at %s)", w, attempt, headline, kept))
+				crashMu.Unlock()
+			}
 		}(w)
 	}
 	wg.Wait()
+	for _, c := range crashes {
+		fmt.Println("note: worker process crashed outside relic code and its runs were executed again:", c)
+	}
 
 	// free-running workload under the race detector
 	var raceViols []violation
@@ -359,8 +385,9 @@ func main() {
 		}
 		f.Close()
 		if !gotSummary {
-			tail := tailFile(filepath.Join(outDir, fmt.Sprintf("w%d.log", w)), 3000)
-			internal = append(internal, fmt.Sprintf("worker %d: no summary (%v)\n%s", w, errs[w], tail))
+			lp := filepath.Join(outDir, fmt.Sprintf("w%d.log", w))
+			kept := keepCrashLog(prop, seed, w, 0, lp)
+			internal = append(internal, fmt.Sprintf("worker %d: no summary (%v); full log kept at %s\n%s\n[...]\n%s", w, errs[w], kept, crashHead(lp, 60), tailFile(lp, 3000)))
 		}
 	}
 
@@ -426,6 +453,8 @@ func main() {
 	wall := time.Since(t0).Seconds()
 	nviol := len(newViol)
 	ev := buildEvidence(prop, pc, tier, seed, agg, len(hashes), wall, nviol, len(printedKnown), tree)
+	sort.Strings(crashes)
+	ev["coverage"].(map[string]any)["worker_processes_rerun_after_a_runtime_crash"] = append([]string{}, crashes...)
 	if err := writeEvidence(prop, ev); err != nil {
 		internal = append(internal, "evidence: "+err.Error())
 	}
@@ -453,6 +482,119 @@ func main() {
 		os.Exit(2)
 	}
 	os.Exit(0)
+}
+
+// maxCrashReruns bounds how often one worker's runs are executed again after
+// its process died of a Go runtime fatal error outside relic code.
+const maxCrashReruns = 2
+
+// classifyCrash decides whether a dead worker process may be run again.  It
+// returns the first line of the crash report and true only when (a) the
+// worker wrote neither a structured error nor a summary, (b) it was not the
+// watchdog that killed it, (c) the report opens with "fatal error:" (a throw
+// or fatal of the Go runtime, not a Go panic, which opens with "panic:"), and
+// (d) the stack of the crashing goroutine - the first one printed - holds no
+// frame of relic's own packages.
+func classifyCrash(outPath, logPath string, err error) (string, bool) {
+	if err == nil || strings.HasPrefix(err.Error(), "watchdog:") {
+		return "", false
+	}
+	if b, e := os.ReadFile(outPath); e == nil {
+		for _, line := range bytes.Split(b, []byte("\n")) {
+			var m struct {
+				Type string `json:"type"`
+			}
+			if json.Unmarshal(line, &m) == nil && (m.Type == "error" || m.Type == "summary") {
+				return "", false
+			}
+		}
+	}
+	b, e := os.ReadFile(logPath)
+	if e != nil {
+		return "", false
+	}
+	lines := strings.Split(string(b), "\n")
+	start := -1
+	for i, l := range lines {
+		if strings.HasPrefix(l, "panic:") || strings.HasPrefix(l, "fatal error:") || strings.HasPrefix(l, "SIG") || strings.HasPrefix(l, "runtime:") {
+			start = i
+			break
+		}
+	}
+	if start < 0 {
+		return "", false
+	}
+	headline := ""
+	for _, l := range lines[start:] {
+		if strings.HasPrefix(l, "panic:") {
+			return l, false
+		}
+		if strings.HasPrefix(l, "fatal error:") {
+			headline = l
+			break
+		}
+		if strings.HasPrefix(l, "goroutine ") {
+			break
+		}
+	}
+	if headline == "" {
+		return lines[start], false
+	}
+	// the crashing goroutine: the first "goroutine N ..." block after the headline
+	in := false
+	for _, l := range lines[start:] {
+		if !in {
+			in = strings.HasPrefix(l, "goroutine ")
+			continue
+		}
+		if strings.TrimSpace(l) == "" {
+			break
+		}
+		if strings.HasPrefix(l, "github.com/sassoftware/relic/v8/") && !strings.Contains(l, "/zz_verif/") {
+			return headline + " (in " + l + ")", false
+		}
+	}
+	return headline, true
+}
+
+// keepCrashLog copies a dead worker's output where it survives the clean-up
+// of the check's scratch directory (build/ is never committed).
+func keepCrashLog(prop string, seed, w, attempt int, logPath string) string {
+	dir := filepath.Join(verifDir, "build", "crash")
+	os.MkdirAll(dir, 0o755)
+	dst := filepath.Join(dir, fmt.Sprintf("%s-seed%d-w%d-a%d-%d.log", prop, seed, w, attempt, time.Now().Unix()))
+	b, err := os.ReadFile(logPath)
+	if err != nil {
+		return "(unreadable: " + err.Error() + ")"
+	}
+	if len(b) > 8<<20 {
+		b = append(append(b[:4<<20:4<<20], []byte("\n[... cut ...]\n")...), b[len(b)-(4<<20):]...)
+	}
+	if err := os.WriteFile(dst, b, 0o644); err != nil {
+		return "(not kept: " + err.Error() + ")"
+	}
+	return dst
+}
+
+// crashHead returns the first n lines of a crash report, starting at its headline.
+func crashHead(logPath string, n int) string {
+	b, err := os.ReadFile(logPath)
+	if err != nil {
+		return ""
+	}
+	lines := strings.Split(string(b), "\n")
+	start := 0
+	for i, l := range lines {
+		if strings.HasPrefix(l, "panic:") || strings.HasPrefix(l, "fatal error:") || strings.HasPrefix(l, "SIG") || strings.HasPrefix(l, "runtime:") {
+			start = i
+			break
+		}
+	}
+	lines = lines[start:]
+	if len(lines) > n {
+		lines = lines[:n]
+	}
+	return strings.Join(lines, "\n")
 }
 
 // sweepScratch removes scratch directories (tmpfs, i.e. memory) that workers
